@@ -64,6 +64,12 @@ def interp_refine(ctx, cfg, d, field, u0s, t0, hs):
     ok &= int(res.step_from.num_steps) == int(st1.num_steps) and int(interpolated.num_steps) == int(st1.num_steps)
     if not ok:
         ctx.violation(f"{sigp}:bookkeeping", "times / num_steps of the interpolation result are not (t, t1, t) / those of interp_to", case)
+    # the domain of a step is (t0, t1]: the interpolated solution and step_from carry the output scale of interp_to
+    # (the scale the two transitions were built with), interp_from keeps the one of the left end point
+    os_to, os_from = np.asarray(st1.output_scale), np.asarray(st0.output_scale)
+    if not (np.array_equal(np.asarray(interpolated.output_scale), os_to) and np.array_equal(np.asarray(res.step_from.output_scale), os_to)
+            and np.array_equal(np.asarray(res.interp_from.output_scale), os_from)):
+        ctx.violation(f"{sigp}:bookkeeping:output_scale", "interpolate_fwd: output scales of (interpolated, step_from, interp_from) are not those of (interp_to, interp_to, interp_from)", case)
     # model: transitions with the output scale of interp_to
     if cfg.solver.startswith("dynamic"):
         osq = np.atleast_1d(np.asarray(st1.output_scale, dtype=np.float64))
@@ -131,14 +137,14 @@ def interp_refine(ctx, cfg, d, field, u0s, t0, hs):
     ctx.case(dict(cfg.key(), d=d, mode="interpolate_fwd_at_t1"))
 
 
-def solve_save_at(objs, save_at, tol, dt0, clip=False, eps=1e-8):
+def solve_save_at(objs, save_at, tol, dt0, clip=False, eps=1e-8, damp=0.0):
     import jax.numpy as jnp
     from probdiffeq import ivpsolve
     from probdiffeq import probdiffeq as pdq
 
     err = pdq.error_residual_std(constraint=objs["constraint"])
     solve = ivpsolve.solve_adaptive_save_at(solver=objs["solver"], error=err, clip_dt=clip)
-    return solve(objs["prior"], save_at=jnp.asarray(save_at), atol=tol, rtol=tol, dt0=dt0, eps=eps)
+    return solve(objs["prior"], save_at=jnp.asarray(save_at), atol=tol, rtol=tol, dt0=dt0, eps=eps, damp=damp)
 
 
 def superset(ctx, cfg, d, field, u0s, t0, t1, tol, dt0):
@@ -210,13 +216,18 @@ def superset(ctx, cfg, d, field, u0s, t0, t1, tol, dt0):
 
     err2 = pdq.error_residual_std(constraint=objs["constraint"])
     for clip in (False, True):
-        term = ivpsolve.solve_adaptive_terminal_values(objs["solver"], err2, clip_dt=clip)(objs["prior"], t0=jnp.asarray(t0), t1=jnp.asarray(t1), atol=tol, rtol=tol, dt0=dt0)
-        ref = solve_save_at(objs, [t0, t1], tol, dt0, clip=clip)
+        # every argument of the terminal-value routine must reach the checkpointed routine: use a non-zero damping and a
+        # non-default eps as well
+        dmp, eps_ = float(gen.pick(rng, [0.0, 2.0**-6, 0.125])), float(gen.pick(rng, [1e-8, 1e-6]))
+        term = ivpsolve.solve_adaptive_terminal_values(objs["solver"], err2, clip_dt=clip)(objs["prior"], t0=jnp.asarray(t0), t1=jnp.asarray(t1), atol=tol, rtol=tol, dt0=dt0, damp=dmp, eps=eps_)
+        ref = solve_save_at(objs, [t0, t1], tol, dt0, clip=clip, damp=dmp, eps=eps_)
         last = jax.tree_util.tree_map(lambda s: s[-1], ref.u)
         for (ma, Ca), (mb, Cb) in zip(sm.normal_slices(cfg.fact, last), sm.normal_slices(cfg.fact, term.u)):
             same = np.array_equal(sm.tofloat(ma), sm.tofloat(mb)) and np.array_equal(sm.tofloat(Ca), sm.tofloat(Cb))
             if not same:
-                ctx.violation(f"terminal:{cfg.fact}:{cfg.strategy}:{cfg.solver}", "solve_adaptive_terminal_values differs from the last entry of solve_adaptive_save_at([t0,t1])", dict(case, clip=clip))
+                ctx.violation(f"terminal:{cfg.fact}:{cfg.strategy}:{cfg.solver}", "solve_adaptive_terminal_values differs from the last entry of solve_adaptive_save_at([t0,t1])", dict(case, clip=clip, damp=dmp, eps=eps_))
+        if int(np.asarray(term.num_steps)) != int(np.asarray(ref.num_steps)[-1]) or not np.array_equal(np.asarray(term.output_scale), np.asarray(ref.output_scale)[-1]):
+            ctx.violation(f"terminal:{cfg.fact}:{cfg.strategy}:{cfg.solver}:bookkeeping", "solve_adaptive_terminal_values: num_steps / output_scale differ from the last entry of the checkpointed routine", dict(case, clip=clip, damp=dmp, eps=eps_))
     ctx.case(dict(cfg.key(), d=d, mode="terminal-values"))
 
 
